@@ -29,19 +29,24 @@ const (
 )
 
 type Cfg struct {
-	MaxFiles   int
-	Scale      int // multiplies declaration counts (1 = small)
-	Dirs       bool
-	Services   bool
-	Scopes     bool
-	Consts     bool
-	Defaults   bool
-	Annots     bool
-	Docs       bool
-	Hazards    map[string]bool
-	Excluded   map[string]int // out: hazard tag -> draws suppressed
-	GoExec     bool           // restrict to what the generated-Go test bed can drive
-	NoIncludes bool
+	MaxFiles     int
+	// EnumDecreasing: explicit enum values may be lower than their predecessor (all values stay
+	// distinct under the compiler's documented numbering "largest so far + 1"). Only for checks
+	// that do not compare implicit values with Thrift's numbering (C11).
+	EnumDecreasing bool
+	Scale        int // multiplies declaration counts (1 = small)
+	Dirs         bool
+	Services     bool
+	Scopes       bool
+	Consts       bool
+	Defaults     bool
+	Annots       bool
+	Docs         bool
+	Hazards      map[string]bool
+	Excluded     map[string]int // out: hazard tag -> draws suppressed
+	GoExec       bool           // restrict to what the generated-Go test bed can drive
+	QuoteStrings bool           // string literals may contain quotes, apostrophes, tabs and backslashes
+	NoIncludes   bool
 }
 
 func DefaultCfg() *Cfg {
@@ -71,6 +76,16 @@ var words = []string{"alpha", "beta", "gamma", "delta", "omega", "sigma", "kappa
 	"status", "color", "shape", "point", "entry", "node", "edge", "graph", "album", "track", "title", "price", "total", "count", "level",
 	"score", "label", "blob", "note", "media", "asset", "owner", "group", "role", "thing", "widget", "gadget", "payload", "message", "envelope",
 	"version", "region", "zone", "shard", "bucket", "digest", "cursor", "offset", "limit", "amount", "ratio", "weight", "height", "width"}
+
+// stringValues: literal contents for defaults / constants. Quote characters are
+// produced only when the hazard tag is on (see HzQuoteInString).
+func stringValues(c *Cfg) []string {
+	v := []string{"", "hello", "two words", "x.y-z_0", "CamelCase"}
+	if c.QuoteStrings {
+		v = append(v, "it's", "rock 'n'", "'", "say \"hi\"", "\"", "tab\there", "back\\slash")
+	}
+	return v
+}
 
 var baseTypes = []string{"bool", "byte", "i8", "i16", "i32", "i64", "double", "string", "binary"}
 var keyBaseTypes = []string{"bool", "byte", "i8", "i16", "i32", "i64", "double", "string"}
@@ -308,7 +323,7 @@ func (b *builder) genValue(label string, ty *Type, depth int, forConst bool) *Va
 		case "double":
 			return &Value{Kind: "double", D: rapid.SampledFrom([]float64{0, 1.5, -2.25, 3, 1000.125, 1.5e3, 0.001}).Draw(t, label+".d")}
 		case "string":
-			return &Value{Kind: "string", S: rapid.SampledFrom([]string{"", "hello", "two words", "x.y-z_0", "CamelCase"}).Draw(t, label+".s")}
+			return &Value{Kind: "string", S: rapid.SampledFrom(stringValues(b.c)).Draw(t, label+".s")}
 		case "binary":
 			return nil
 		}
@@ -525,19 +540,46 @@ func (b *builder) genDecls() {
 		d := &Decl{Kind: "enum", Name: c.genName(t, b.names, "enum", typeStyles), Doc: b.doc("enum"), Ann: b.ann("enum")}
 		vn := newNamer()
 		next := 0
+		usedVals := map[int]bool{}
 		nv := rapid.IntRange(1, 5).Draw(t, "nvals")
 		for j := 0; j < nv; j++ {
 			ev := EnumValue{Name: c.genName(t, vn, "eval", enumValStyles), Doc: b.doc("eval"), Ann: b.ann("eval")}
 			if rapid.IntRange(0, 2).Draw(t, "explicit?") == 0 {
 				ev.Explicit = true
 				ev.Value = next + rapid.IntRange(0, 5).Draw(t, "evstep")
-				if c.hz(t, HzEnumNonMonotonic, 12) {
+				var free []int
+				for v := 0; v < next && c.EnumDecreasing; v++ {
+					if !usedVals[v] {
+						free = append(free, v)
+					}
+				}
+				if len(free) > 0 && rapid.IntRange(0, 2).Draw(t, "evdecr?") == 0 {
+					// an explicit value below its predecessor, distinct from every other value
+					var tight []int // free values directly below a used one
+					for _, v := range free {
+						if usedVals[v+1] {
+							tight = append(tight, v)
+						}
+					}
+					if len(tight) > 0 && rapid.Bool().Draw(t, "evtight") {
+						free = tight
+					}
+					ev.Value = rapid.SampledFrom(free).Draw(t, "evdecr")
+				} else if c.hz(t, HzEnumNonMonotonic, 12) {
 					ev.Value = rapid.IntRange(-3, next).Draw(t, "evback")
 				}
 			} else {
 				ev.Value = next
 			}
-			next = ev.Value + 1
+			usedVals[ev.Value] = true
+			if c.EnumDecreasing {
+				// the numbering grammar.peg documents: one more than the largest value so far
+				if ev.Value >= next {
+					next = ev.Value + 1
+				}
+			} else {
+				next = ev.Value + 1
+			}
 			d.EnumValues = append(d.EnumValues, ev)
 		}
 		b.add(d)
@@ -565,7 +607,7 @@ func (b *builder) genDecls() {
 			d := &Decl{Kind: "typedef", Name: c.genName(t, b.names, "typedef", typeStyles), Doc: b.doc("typedef"), Ann: b.ann("typedef")}
 			d.Type = b.genType("typedef.t", 2, false, nil)
 			// the same name may be declared, with another meaning, in an included file
-			if len(b.types) > 0 && rapid.IntRange(0, 4).Draw(t, "shadow?") == 0 {
+			if len(b.types) > 0 && rapid.IntRange(0, 1).Draw(t, "shadow?") == 0 {
 				a := b.types[rapid.IntRange(0, len(b.types)-1).Draw(t, "shadow")]
 				if a.file != b.fi && b.names.take(a.name) {
 					d.Name = a.name
